@@ -221,11 +221,13 @@ class TplGen:
         if self.o['lookup']:
             hs += ['lookup']
         if self.o['probes']:
-            hs += ['id', 'id', 'dump']
+            hs += ['id', 'id', 'dump', 'cnt']
+        if self.o['blocks'] and r.random() < 0.15:
+            hs += ['if', 'with']          # output-writing built-ins used inline
         if not hs:
             hs = ['not']
         h = r.choice(hs)
-        n = {'not': 1, 'len': 1, 'id': 1, 'lookup': 2}.get(h, 2)
+        n = {'not': 1, 'len': 1, 'id': 1, 'lookup': 2, 'cnt': 1, 'if': 1, 'with': 1}.get(h, 2)
         args = [self.arg(depth) for _ in range(n)]
         if h == 'lookup':
             args[1] = r.choice([self.literal(0), '0', '"a"', '"name"', self.path()])
@@ -276,6 +278,13 @@ class TplGen:
             return self.text()
         if k == 'expr':
             return '{{%s%s%s}}' % (a, self.path(), b)
+        if k == 'html' and self.o['helpers'] and r.random() < 0.4:
+            # a value-returning helper inside a triple brace, with subexpression arguments (some of them
+            # calling output-writing helpers when probes are on)
+            h = r.choice(['lookup', 'eq', 'not', 'len'] + (['id', 'id'] if self.o['probes'] else []))
+            n = {'not': 1, 'len': 1, 'id': 1}.get(h, 2)
+            args = [self.subexpr(1) if r.random() < 0.6 else self.arg() for _ in range(n)]
+            return '{{{%s%s %s%s}}}' % (a, h, ' '.join(args), b)
         if k == 'html':
             p = self.path()
             f = r.choice(['{{{%s%s%s}}}', '{{%s&%s%s}}', '{{%s{%s}%s}}'])
